@@ -175,6 +175,22 @@ def np_ceil(eng, st, args, kwargs, line):
     return val(st, VReal(eng.to_real(v)))
 
 
+RNDF = z3.Function("rndf", REAL, INT)
+
+
+@model("numpy.round")
+def np_round(eng, st, args, kwargs, line):
+    """np.round of a real array: element-wise the uninterpreted integer-valued function rndf (deterministic; the
+    rounding mode itself is not modelled)."""
+    a = args[0]
+    if isinstance(a, VArr) and st.hmeta[a.obj]["kind"] == "real":
+        eng.assume_tag("A-NP")
+        j = z3.Int("j!rd")
+        el = z3.ToReal(RNDF(z3.Select(st.heap[a.obj], eng.arr_index_term(a, j))))
+        return val(st, new_array(eng, st, [a.n], "real", st.hmeta[a.obj].get("dtype"), z3.Lambda([j], el), "round"))
+    raise OutOfSubset(f"line {line}: np.round of {a!r}")
+
+
 @model("numpy.arange")
 def np_arange(eng, st, args, kwargs, line):
     eng.assume_tag("A-NP")
@@ -278,6 +294,16 @@ def arr_ravel(eng, st, args, kwargs, line):
     if isinstance(a, VArr2) and smt.conc_int(a.s1) == 1 and eng.entails(st, a.s0 == a.n1):
         return val(st, VArr(a.obj, a.off, z3.IntVal(1), smt.som(a.n0 * a.n1)))
     raise OutOfSubset(f"line {line}: ravel of a non-contiguous 2-D view (copy)")
+
+
+@model("arrmethod.fill")
+def arr_fill(eng, st, args, kwargs, line):
+    """a.fill(v): a[:] = v"""
+    a = args[0]
+    if not isinstance(a, VArr):
+        raise OutOfSubset(f"line {line}: fill of {a!r}")
+    eng.assign_slice(st, a, args[1], line)
+    return val(st, NONE)
 
 
 @model("arrmethod.astype")
